@@ -5,4 +5,5 @@ CONSTANTS
   Shard = 0
   NShards = 1
 INVARIANT Exposes
+INVARIANT Compiles
 CHECK_DEADLOCK FALSE
